@@ -81,6 +81,7 @@ Record conn := mkConn {
   cinc : nat;           (* incarnation of the peer holding the other end *)
   alive : bool;         (* the other end still exists *)
   lclosed : bool;       (* closed on our side *)
+  sink : bool;          (* abandoned by a peer that shut down without closing it: writes succeed, nobody reads *)
   loop : lstate }.
 
 Inductive pc :=
@@ -146,9 +147,9 @@ Definition set_threads (s : state) v n :=
           (delivered s) (dispatched s) v n.
 
 Definition set_conn (s : state) (c : nat) (x : conn) : state := set_conns s (upd (conns s) c (Some x)).
-Definition set_loop (x : conn) (l : lstate) : conn := mkConn (cpeer x) (cinc x) (alive x) (lclosed x) l.
-Definition set_lclosed (x : conn) (b : bool) : conn := mkConn (cpeer x) (cinc x) (alive x) b (loop x).
-Definition set_alive (x : conn) (b : bool) : conn := mkConn (cpeer x) (cinc x) b (lclosed x) (loop x).
+Definition set_loop (x : conn) (l : lstate) : conn := mkConn (cpeer x) (cinc x) (alive x) (lclosed x) (sink x) l.
+Definition set_lclosed (x : conn) (b : bool) : conn := mkConn (cpeer x) (cinc x) (alive x) b (sink x) (loop x).
+Definition set_alive (x : conn) (b : bool) : conn := mkConn (cpeer x) (cinc x) b (lclosed x) (sink x) (loop x).
 Definition set_thread (s : state) (t : nat) (x : thread) : state :=
   set_threads s (upd (threads s) t (Some x)) (nextt s).
 Definition set_pc (x : thread) (p : pc) : thread := mkThread (tpeer x) (tmsgs x) p.
@@ -156,7 +157,7 @@ Definition set_pc (x : thread) (p : pc) : thread := mkThread (tpeer x) (tmsgs x)
 (* a fresh connection to the current incarnation of p *)
 Definition new_conn (s : state) (p : nat) (l : lstate) : state * nat :=
   let c := nextc s in
-  (set_nextc (set_conn s c (mkConn p (incn s p) true false l)) (S c), c).
+  (set_nextc (set_conn s c (mkConn p (incn s p) true false false l)) (S c), c).
 
 (* Conn.Send of one message: a locally closed connection refuses; a live remote end
    receives; a dead one refuses, unless the kernel buffers the write (TCP, oracle) *)
@@ -166,8 +167,8 @@ Definition conn_send (s : state) (c m : nat) (oracle : bool) : state * bool :=
   | Some x =>
       if lclosed x then (s, false)
       else if alive x then
-        (* an abandoned connection of an earlier incarnation swallows the message *)
-        (if cinc x =? incn s (cpeer x) then set_delivered s (delivered s ++ [(m, c)]) else s, true)
+        (* an abandoned connection swallows the message *)
+        (if sink x then s else set_delivered s (delivered s ++ [(m, c)]), true)
       else if tcp s && oracle then (s, true)
       else (s, false)
   end.
@@ -216,7 +217,8 @@ Inductive action :=
                                          (* listener: p dialled us while shutting down; p's side refuses to register
                                             the connection and closes it ([closes]) or just drops it (pinned code) *)
 | ALaunchInc (c : nat)                   (* listener goroutine: launchHandleRoutine *)
-| ACrash (p : nat)                       (* environment: p dies; every connection with it loses its far end *)
+| ACrash (p : nat)                       (* environment: p dies; every connection with it loses its far end
+                                            (an abandoned one stays as it is: nobody is left to close it) *)
 | ARestart (p : nat)                     (* environment: p listens again (new incarnation) *)
 | AClose.                                (* Router.Stop: closed flag, every registered connection closed *)
 
@@ -346,12 +348,12 @@ Definition step (s : state) (a : action) : option state :=
       if listening s p then None
       else
         let c := nextc s in
-        let s' := set_nextc (set_conn s c (mkConn p (incn s p) (negb closes) false LNone)) (S c) in
+        let s' := set_nextc (set_conn s c (mkConn p (incn s p) (negb closes) false (negb closes) LNone)) (S c) in
         if closed s then Some s'
         else Some (set_table s' (upd (table s') p (table s' p ++ [c])))
   | AAcceptFail p =>
       let c := nextc s in
-      Some (set_nextc (set_conn s c (mkConn p (incn s p) false true (LExited false))) (S c))
+      Some (set_nextc (set_conn s c (mkConn p (incn s p) false true false (LExited false))) (S c))
   | ALaunchInc c =>
       match conns s c with
       | Some x =>
@@ -367,7 +369,7 @@ Definition step (s : state) (a : action) : option state :=
   | ACrash p =>
       Some (set_env
               (set_conns s (fun c => match conns s c with
-                                     | Some x => if cpeer x =? p then Some (set_alive x false) else Some x
+                                     | Some x => if (cpeer x =? p) && negb (sink x) then Some (set_alive x false) else Some x
                                      | None => None
                                      end))
               (upd (listening s) p false) (incn s))
@@ -406,8 +408,8 @@ Definition result (s : state) (t : nat) : option res :=
   end.
 
 (* at most 6 steps per message (send, dial, identity, register, launch, resend) plus the
-   first connect; [send_fuel_enough] in the proofs *)
-Definition send_fuel (msgs : list nat) : nat := 6 + 6 * length msgs.
+   lookup and the first connect; [send_returns] in the proofs *)
+Definition send_fuel (msgs : list nat) : nat := 12 + 6 * length msgs.
 
 (* Router.Send as one uninterrupted call *)
 Definition send_call (s : state) (p : nat) (msgs : list nat) (oracle : bool) : state * option res :=
